@@ -38,13 +38,22 @@ def _q_ge(gate, part):
     return part.quality >= 0.5
 
 
+REPAIR_TAG = ('fix', 1)       # a work-order tag that is not an interned object
+
+
 class _Repair:
-    def __init__(self, mt):
+    '''Requests the repair twice: with the tag the program handed to the simulation function (through the extra
+    arguments of simulate_multiple_times: the very object below when run in-process, an equal copy in a worker) and
+    with the module-level constant.  The second request is a duplicate and is refused -- wherever the run executes.'''
+
+    def __init__(self, mt, tag=None):
         self.mt = mt
+        self.tag = REPAIR_TAG if tag is None else tag
 
     def __call__(self, dev, is_failure, part):
         if is_failure:
-            self.mt.create_work_order(dev, 'fix')
+            self.mt.create_work_order(dev, self.tag)
+            self.mt.create_work_order(dev, REPAIR_TAG)
 
 
 class _RandomFaults:
@@ -79,7 +88,7 @@ class _SlowRepair(PartProcessor):
         return 5
 
 
-def build_model(kind):
+def build_model(kind, tag=None):
     '''Builds a model in the ACTIVE system from library classes only (default PartGenerator: part ids come from the
     global counter).  Merge topologies make the random tie-breaks decide outcomes.'''
     if kind == 'fan':
@@ -107,7 +116,7 @@ def build_model(kind):
         m1 = PartProcessor('M1', [s], 1)
         m2 = _SlowRepair('M2', [s], 1)
         for m in (m1, m2):
-            m.add_shutdown_callback(_Repair(mt))
+            m.add_shutdown_callback(_Repair(mt, tag))
         Sink('K', [m1, m2], collect_parts=True)
     elif kind == 'faults':
         mt = Maintainer('mt', 1)
@@ -115,7 +124,7 @@ def build_model(kind):
         m1 = PartProcessor('M1', [s], 1)
         m2 = PartProcessor('M2', [s], 2)
         for m in (m1, m2):
-            m.add_shutdown_callback(_Repair(mt))
+            m.add_shutdown_callback(_Repair(mt, tag))
             m.add_restored_callback(_RandomFaults())
         Sink('K', [m1, m2], collect_parts=True)
     elif kind == 'group2':
@@ -230,10 +239,10 @@ def one_run(kind, seed, offset, horizon):
 
 # ----------------------------------------------------------------------------- simulate_multiple_times
 
-def sim_fn(system, index, kind, horizon=0.5):
+def sim_fn(system, index, kind, horizon=0.5, tag=None):
     '''The user's simulation function (module level, picklable); the horizon is passed as a KEYWORD argument through
     simulate_multiple_times (its default is deliberately a different one).'''
-    build_model(kind)
+    build_model(kind, tag)
     prepare(system, kind)
     system.sim_index = index
     random.seed(1000 + index)
@@ -301,7 +310,7 @@ def smt_once(kind, horizon, n, max_processes, order):
         if order is not None:
             sysmod.concurrent.futures.ProcessPoolExecutor = FakeExecutor
         with _Quiet():
-            res = System.simulate_multiple_times(sim_fn, n, max_processes, kind, horizon=horizon)
+            res = System.simulate_multiple_times(sim_fn, n, max_processes, kind, horizon=horizon, tag=REPAIR_TAG)
         return res
     finally:
         sysmod.concurrent.futures.ProcessPoolExecutor = real
@@ -391,7 +400,7 @@ def run_repro_job(job, seed):
                             try:
                                 Asset._id_counter = 0
                                 with _Quiet():
-                                    ref[i] = normalise(System._simulation_helper(sim_fn, i, kind, horizon=horizon))
+                                    ref[i] = normalise(System._simulation_helper(sim_fn, i, kind, horizon=horizon, tag=REPAIR_TAG))
                             finally:
                                 Asset._id_counter, System._instance = saved[0], saved[1]
                                 random.setstate(saved[2])
